@@ -342,3 +342,15 @@ mod tests {
         assert!(GraphQLParser::parse(Rule::const_list, "[123.0123e77abc]").is_err());
     }
 }
+
+#[cfg(feature = "verif-hooks")]
+#[doc(hidden)]
+pub fn verif_string_value(s: &str) -> String {
+    utils::string_value(s)
+}
+
+#[cfg(feature = "verif-hooks")]
+#[doc(hidden)]
+pub fn verif_block_string_value(raw: &str) -> String {
+    utils::block_string_value(raw)
+}
